@@ -51,6 +51,10 @@ CHECK_DEADLOCK FALSE
 """
 
 
+REPOTESTS = ("C01", "C02", "C03", "C07", "C08", "C16", "C17")
+REPOTESTS_QUICK = ("C07",)
+
+
 def run_mc(rep, which, maxops, maxt, slice_, timeout):
     d = tlcrun.scratch_dir()
     cfg = os.path.join(d, "mc.cfg")
@@ -247,6 +251,11 @@ def run(prop, tier, replay=None):
 
         fam, (nq, nt) = BT[prop]
         check_bt.stage(rep, prop, fam, nq if tier == "quick" else nt, known_db)
+    # the repository's own tests, run under the recorder, as a further source of traces
+    if prop in REPOTESTS and (tier != "quick" or prop in REPOTESTS_QUICK) and os.environ.get("BT_VERIF_BUILD", "") != "compiled":
+        import repotests
+
+        repotests.stage(rep, prop, known_db, classify, maxn=24 if tier == "quick" else 400)
     rep.extra["sources"] = __import__("btload").source_info()
     rep.extra["trees"] = sorted(set(t["C"].get("tree") for t in traces))
     rep.assumptions = [
@@ -260,6 +269,21 @@ def run(prop, tier, replay=None):
 def do_replay(prop, path):
     with open(path) as fh:
         p = json.load(fh)
+    if isinstance(p.get("ops"), dict) and "repotest" in p["ops"]:
+        import repotests
+
+        doc = repotests.collect(only=p["ops"]["repotest"])
+        trs = [t for t in doc["traces"] if t["label"] == p["ops"]["label"]]
+        if not trs:
+            print("nothing recorded for %s" % p["ops"])
+            return 2
+        os.environ["TRACE_DEBUG"] = "1"
+        v, st, out = tlcrun.validate_batch("Trace_BtAbs", [{"tid": 1, "C": trs[0]["C"], "events": trs[0]["events"]}])
+        print(json.dumps(v[1], indent=1))
+        bad = v[1]["verdict"] == "FAIL" and any(common.clause_prop(c) == prop for c in v[1]["clauses"])
+        if bad:
+            print("VIOLATION property=%s replay=%s" % (prop, path))
+        return 1 if bad else 0
     tr = treedrv.run_scenario({"C": p["C"], "ops": p["ops"]}, tid=1, lazy=p.get("lazy", False))
     os.environ["TRACE_DEBUG"] = "1"
     v, st, out = tlcrun.validate_batch("Trace_BtAbs", [{"tid": 1, "C": tr["C"], "events": tr["events"]}])
